@@ -76,6 +76,12 @@ carquet_status_t carquet_arena_init(carquet_arena_t* arena) {
 carquet_status_t carquet_arena_init_size(carquet_arena_t* arena, size_t block_size) {
     assert(arena != NULL);
 
+#ifdef CARQUET_VERIF
+    if (arena_verif_granule()) {
+        block_size = arena_verif_granule();
+    }
+#endif
+
     /* Zero-initialize the arena structure first */
     arena->head = NULL;
     arena->current = NULL;
